@@ -29,6 +29,25 @@ func CPUTicks(pid int) int64 {
 	return u + st
 }
 
+// Runnable reports whether some thread of the process is running or runnable right now (state R).
+func Runnable(pid int) bool {
+	ents, err := os.ReadDir(fmt.Sprintf("/proc/%d/task", pid))
+	if err != nil {
+		return false
+	}
+	for _, e := range ents {
+		b, err := os.ReadFile(fmt.Sprintf("/proc/%d/task/%s/stat", pid, e.Name()))
+		if err != nil {
+			continue
+		}
+		s := string(b)
+		if i := strings.LastIndexByte(s, ')'); i >= 0 && i+2 < len(s) && s[i+2] == 'R' {
+			return true
+		}
+	}
+	return false
+}
+
 // Monitor samples the resident set size of a process while something is going on.
 type Monitor struct {
 	rss  func() int64
